@@ -79,6 +79,19 @@ def run_item(item):
                 continue
             m = m0 if pool is None else m0.copy().relabel(dict(zip(ids, pool)))
             g = U.build(m)
+            if pname == "negative" and ids:
+                # the source has an editing history: every atom is added a second time (same element), one bond is removed and
+                # added again - the content is the same and must round-trip like a freshly built graph
+                from ..model.elements import SYM
+
+                for a in list(m.atoms):
+                    g.add_atom(a, SYM[m.atoms[a]["atom_type"]], **{k: v for k, v in m.atoms[a].items() if k != "atom_type"})
+                if m.bonds and not (m.bstereo or m.bchg):
+                    b0 = next(iter(m.bonds))
+                    from ..universe.graphs import rattrs
+
+                    g.remove_bond(*b0)
+                    g.add_bond(*b0, **rattrs(m.bonds[b0]))
             feats = set()
             if any(d.get("reaction") == "Change.FLEETING" for d in m.bonds.values()):
                 feats.add("fleeting-bond")
